@@ -3,6 +3,7 @@ package main
 import (
 	"fmt"
 	"go/ast"
+	"go/constant"
 	"go/token"
 	"go/types"
 	"os"
@@ -1134,6 +1135,27 @@ func loopProgress(fn *ssa.Function, h *ssa.BasicBlock) (string, bool) {
 	if !cycleWithout(h, set) {
 		return "every cycle passes an input-consuming call", true
 	}
+	// a lookahead wrapper (Peek): every path through it consumes, on failure it returns the zero value,
+	// and the loop goes round again only if a test that the zero value fails holds for what it returned
+	// (`for strings.HasPrefix(line, "#") { line = strings.TrimSpace(sc.Peek()) }`)
+	isLookahead := func(i ssa.Instruction) bool {
+		if isConsuming(i) {
+			return true
+		}
+		call, ok := i.(*ssa.Call)
+		if !ok {
+			return false
+		}
+		f := call.Call.StaticCallee()
+		if f == nil || f.Pkg != fn.Pkg || len(f.Blocks) == 0 || !consumesOnEveryPath(f, isConsuming) {
+			return false
+		}
+		return zeroEndsLoop(h, call)
+	}
+	set = exploreBlock(h, isLookahead)
+	if !cycleWithout(h, set) {
+		return "every cycle passes an input-consuming call or a lookahead whose failure value ends the loop", true
+	}
 	// a bounded retry loop whose counter is a loop-local induction variable
 	return "a cycle through this loop consumes no input and is not a counting loop (possible infinite loop on some input)", false
 }
@@ -1370,6 +1392,129 @@ func inlinedLibraryCallAt(c *Ctx, file string, line, col int) bool {
 				return true
 			})
 			return found
+		}
+	}
+	return false
+}
+
+// consumesOnEveryPath: every path from f's entry to a return passes a consuming call, and where that
+// call reports failure (a false result tested directly) f returns zero values.
+func consumesOnEveryPath(f *ssa.Function, isConsuming func(ssa.Instruction) bool) bool {
+	set := exploreBlock(f.Blocks[0], isConsuming)
+	if len(returnsIn(set)) > 0 {
+		return false
+	}
+	ok := true
+	found := false
+	eachInstr(f, func(i ssa.Instruction) {
+		call, isCall := i.(*ssa.Call)
+		if !isCall || !isConsuming(i) {
+			return
+		}
+		found = true
+		// the failure edge: If on the call's boolean result (possibly negated)
+		var failBlock *ssa.BasicBlock
+		for _, r := range refs(call) {
+			switch x := r.(type) {
+			case *ssa.If:
+				failBlock = x.Block().Succs[1]
+			case *ssa.UnOp:
+				if x.Op == token.NOT {
+					for _, rr := range refs(x) {
+						if ifi, isIf := rr.(*ssa.If); isIf {
+							failBlock = ifi.Block().Succs[0]
+						}
+					}
+				}
+			}
+		}
+		if failBlock == nil {
+			ok = false
+			return
+		}
+		for _, r := range returnsIn(exploreBlock(failBlock, nil)) {
+			for _, res := range r.(*ssa.Return).Results {
+				k, isK := res.(*ssa.Const)
+				if !isK || !(k.Value == nil || (k.Value.Kind() == constant.String && constant.StringVal(k.Value) == "") || (k.Value.Kind() == constant.Int && k.Value.ExactString() == "0")) {
+					ok = false
+				}
+			}
+		}
+	})
+	return ok && found
+}
+
+// zeroEndsLoop: some test passed on every way round the loop headed by h leaves the loop unless a
+// value derived (by zero-preserving string functions only) from the call's result is non-zero:
+// HasPrefix/HasSuffix with a non-empty constant, `v != ""`, `len(v) > 0`.
+func zeroEndsLoop(h *ssa.BasicBlock, call *ssa.Call) bool {
+	body := naturalLoop(h)
+	var derived func(v ssa.Value, depth int) bool
+	derived = func(v ssa.Value, depth int) bool {
+		if depth > 8 {
+			return false
+		}
+		if v == ssa.Value(call) {
+			return true
+		}
+		switch x := v.(type) {
+		case *ssa.Call:
+			switch callName(&x.Call) {
+			case "strings.TrimSpace", "strings.TrimRight", "strings.TrimLeft", "strings.Trim", "strings.TrimPrefix", "strings.TrimSuffix", "strings.ToLower", "strings.ToUpper":
+				return derived(x.Call.Args[0], depth+1)
+			}
+		case *ssa.Phi:
+			// only what arrives over edges from inside the loop matters from the second round on
+			n := 0
+			for k, e := range x.Edges {
+				if body[x.Block().Preds[k]] {
+					if !derived(e, depth+1) {
+						return false
+					}
+					n++
+				}
+			}
+			return n > 0
+		}
+		return false
+	}
+	nonZeroTest := func(c ssa.Value) (ssa.Value, bool) { // the tested value; true when c being true implies non-zero
+		switch x := c.(type) {
+		case *ssa.Call:
+			if n := callName(&x.Call); (n == "strings.HasPrefix" || n == "strings.HasSuffix") && len(x.Call.Args) == 2 {
+				if k, isK := x.Call.Args[1].(*ssa.Const); isK && k.Value != nil && k.Value.Kind() == constant.String && constant.StringVal(k.Value) != "" {
+					return x.Call.Args[0], true
+				}
+			}
+		case *ssa.BinOp:
+			if k, isK := x.Y.(*ssa.Const); isK && k.Value != nil {
+				if x.Op == token.NEQ && k.Value.Kind() == constant.String && constant.StringVal(k.Value) == "" {
+					return x.X, true
+				}
+				if lc, isL := x.X.(*ssa.Call); isL && callName(&lc.Call) == "builtin:len" && k.Value.Kind() == constant.Int && k.Value.ExactString() == "0" && (x.Op == token.GTR || x.Op == token.NEQ) {
+					return lc.Call.Args[0], true
+				}
+			}
+		}
+		return nil, false
+	}
+	for b := range body {
+		ifi, isIf := b.Instrs[len(b.Instrs)-1].(*ssa.If)
+		if !isIf || body[b.Succs[1]] || !body[b.Succs[0]] {
+			continue // the false edge must leave the loop
+		}
+		v, ok := nonZeroTest(ifi.Cond)
+		if !ok || !derived(v, 0) {
+			continue
+		}
+		every := true
+		for _, p := range h.Preds {
+			if body[p] && !b.Dominates(p) {
+				every = false
+			}
+		}
+		if every {
+			return true
 		}
 	}
 	return false
